@@ -279,7 +279,16 @@ def _errors(rc: RuleCtx):
                 fr.block(pre, env, TRUE)
             except Unsupported as e:
                 raise AnalysisError(f"evaluation.{name}: pre-loop code not modelled: {e}")
-            it = fr.expr(loop.iter, env)
+            it_node = loop.iter
+            if not isinstance(it_node, ast.Name):
+                nm_ = sorted({n.id for n in ast.walk(it_node) if isinstance(n, ast.Name) and n.id not in ("range", "len", "enumerate", "zip")})
+                if len(nm_) == 1:
+                    it_node = ast.Name(id=nm_[0], ctx=ast.Load())          # for k in range(len(a)) / enumerate(a): the side is `a`
+                    ast.copy_location(it_node, loop.iter)
+                    fi.module.node_scope[id(it_node)] = fi.scope
+                    from ..model import keep as _keep
+                    _keep(it_node)
+            it = fr.expr(it_node, env)
             # which local is `b` (the searched side): the other point set used in the body
             ktake = Vec([anf.opaque("take", c, knees, array=True) for c in pts.items], "point")
             env["knee_points!"] = ktake
@@ -374,10 +383,18 @@ def _error_body(rc: RuleCtx, name: str, fi, loop, post, table):
     ev.len_map = {"a": sym("La"), "b": sym("Lb")}
     p = ev.point("p")
     eps = ev.symbol("eps")
-    if not (isinstance(loop.iter, ast.Name) and isinstance(loop.target, ast.Name)):
-        raise AnalysisError(f"evaluation.{name}: the matching loop is not `for p in <side>`")
-    a_name, p_name = loop.iter.id, loop.target.id
     pre, _l, _p = split_at_loop(fi)
+    # the iterated side and the current point, whatever the loop header looks like (for p in a / for k in range(len(a)): p = a[k] / enumerate)
+    a_name = p_name = None
+    if isinstance(loop.iter, ast.Name) and isinstance(loop.target, ast.Name):
+        a_name, p_name = loop.iter.id, loop.target.id
+        header_bind = None
+    else:
+        names_in_iter = [n.id for n in ast.walk(loop.iter) if isinstance(n, ast.Name) and n.id not in ("range", "len", "enumerate", "zip")]
+        if len(set(names_in_iter)) != 1:
+            raise AnalysisError(f"evaluation.{name}: the matching loop does not run over one point set")
+        a_name = names_in_iter[0]
+        header_bind = True
     # the searched side: under Strategy.knees the iterated side is the knee points, so the searched side is the local
     # (other than the iterated one) that holds the expected points; cross-checked under Strategy.expected
     env_k, env_e = table["knees"][1], table["expected"][1]
@@ -393,7 +410,18 @@ def _error_body(rc: RuleCtx, name: str, fi, loop, post, table):
     fr0.block(pre, env0, TRUE)
     acc_names = [n for n, v in env0.items() if isinstance(v, Rat) and v.is_zero()]
     list_names = [n for n, v in env0.items() if isinstance(v, Vec) and v.kind == "list" and not v.items]
-    benv = {a_name: A, b_name: B, p_name: p, "eps": eps}
+    if header_bind:
+        from .common import bind_loop
+        frh = Frame(ev, fi, 0)
+        hb = bind_loop(ev, frh, loop, {a_name: A, b_name: B, "eps": eps})
+        if hb is None or not (hb.lo.is_zero() and hb.hi.equals(sym("La"))):
+            raise AnalysisError(f"evaluation.{name}: the matching loop does not visit every point of the iterated side once")
+        benv = {a_name: A, b_name: B, "eps": eps}
+        benv.update(hb.bindings)
+        # the current point: bound by the header or by the first statement of the body (p = a[k])
+        p = Vec([anf.opaque("at", A.items[0], hb.idx, array=False), anf.opaque("at", A.items[1], hb.idx, array=False)], "point")
+    else:
+        benv = {a_name: A, b_name: B, p_name: p, "eps": eps}
     for n in acc_names:
         benv[n] = ev.symbol("error")
     for n in list_names:
@@ -411,7 +439,33 @@ def _error_body(rc: RuleCtx, name: str, fi, loop, post, table):
         want_term = (p.items[0] - qx) * (p.items[0] - qx) + (p.items[1] - qy) * (p.items[1] - qy)
     else:
         want_term = None
-    if name in ("mae", "mse"):
+    list_form = False
+    if name in ("mae", "mse") and not (isinstance(out.env.get(acc), Rat) and "error" in out.env.get(acc).symbols()):
+        # the per-point terms are collected in a list and added up afterwards (same additions, same order)
+        apps_ = [e for e in out.events if e.kind == "append" and e.guard.kind == "true"]
+        if len(apps_) == 1 and isinstance(apps_[0].args[0], Rat) and len(list_names) == 1:
+            list_form = True
+            if apps_[0].args[0].equals(want_term):
+                res.ok("S6", f"evaluation.{name}:term", f"one term {_short(want_term, 100)} per point, at the Euclidean argmin")
+            else:
+                res.violation("S6", mod, fi.name, loop, f"the per-point error term of {name} is not the stated one at the Euclidean nearest neighbour",
+                              _short(apps_[0].args[0], 200), _short(want_term), construct=f"{name} error term")
+            fr = Frame(ev, fi, 0)
+            T_ = ev.symbol("terms", True)
+            ev.len_map["terms"] = sym("La")
+            penv = {a_name: A, b_name: B, lst: T_}
+            fr.block(post, penv, TRUE)
+            val = mk_pw(fr.returns)
+            want = anf.f_sum(T_, sym("La")) / (C(2) * sym("La"))
+            if isinstance(val, Rat) and val.equals(want):
+                res.ok("S6", f"evaluation.{name}:divisor", "sum(terms) / (2 * len(a))")
+                res.ok("S6", f"evaluation.{name}:init", "the sum starts at 0")
+            else:
+                res.violation("S6", mod, fi.name, fi.node, f"{name} does not divide the accumulated error by 2 * len(a)", _short(val), _short(want),
+                              construct=f"{name} divisor")
+    if list_form:
+        pass
+    elif name in ("mae", "mse"):
         new_acc = out.env.get(acc)
         if isinstance(new_acc, Rat) and new_acc.sub(sym("error")).equals(want_term):
             res.ok("S6", f"evaluation.{name}:term", f"error += {_short(want_term, 100)} at the Euclidean argmin")
